@@ -3,6 +3,7 @@ open Biogo.Properties.C19
 #print axioms no_panic
 #print axioms out_closed_exactly_once
 #print axioms each_op_one_result
+#print axioms each_op_one_result_one_producer
 #print axioms each_op_one_result_final
 #print axioms shutdown_terminates
 #print axioms shutdown_clean
